@@ -4,6 +4,7 @@ import tpl_checks
 import field_checks
 import pass_checks
 import tagged_checks
+import dis_checks
 
 CORE_A = ["Model/Base.v", "Model/Dispatch.v", "Model/Routing.v", "Model/DispLane.v", "Gen/DispatchSrc.v", "Gen/ConvSrc.v",
           "Proofs/DispatchProofs.v", "Proofs/RoutingProofs.v", "Proofs/SrcObligations.v"]
@@ -55,6 +56,10 @@ def _c13(v, b, tier):
     tagged_checks.check_c13(v, 50 * SIZES[tier])
 
 
+def _c12(v, b, tier):
+    dis_checks.check_c12(v, b.t1_summary, 40 * SIZES[tier], [1, 7] if tier == "quick" else [1, 2, 3, 5, 7, 11, 13, 17])
+
+
 def _c10(v, b, tier):
     tpl_checks.check_c10(v, b.t1_summary, 60 * SIZES[tier], 5)
 
@@ -88,6 +93,12 @@ REGISTRY = {
                     "prefixed, non-injective) x tag name (incl. names colliding with member fields) x default (none, a member, a class outside) x "
                     "forbid_extra_keys x converter class x validation mode; per configuration every member instance, a subclass instance, and payload "
                     "variants (tagged, tag first, tag missing, unknown tag, extra key); every case non-trivial; distinct = (configuration, instance)"},
+    "C12": {"props_file": "Props/C12.v", "files": ["Model/Base.v", "Model/Disambig.v", "Gen/DisSrc.v", "Proofs/DisambigProofs.v", "Props/C12.v"],
+            "run": _c12, "t1_sections": ["disambig"],
+            "rule": "unions of 2-5 generated attrs classes / dataclasses with 1-4 attributes drawn from 7 names (overlapping), each required or defaulted, "
+                    "12% init=False, 20% Literal-typed, 30% of unions with a shared Literal `kind` attribute, 15% with None; every rotation plus two "
+                    "random permutations of the members; two instances per member; the whole battery re-run in subprocesses under other PYTHONHASHSEEDs; "
+                    "non-trivial = >= 2 members; distinct = (union, order)"},
     "C10": {"props_file": "Props/C10.v", "files": CORE_TPL + ["Props/C10.v"], "run": _c10, "rule": RULE_TPL, "t1_sections": ["gen"]},
     "C07": {"props_file": "Props/C07.v", "files": CORE_A + ["Props/C07.v"], "run": _c07, "rule": RULE_DISP},
     "C08": {"props_file": "Props/C08.v", "files": CORE_A + ["Props/C08.v"], "run": _c08, "rule": RULE_DISP},
